@@ -1,3 +1,3 @@
 SPECIFICATION Spec
-CONSTANT SyncRet = FALSE
+CONSTANT SyncRet = TRUE
 CHECK_DEADLOCK FALSE
